@@ -9,7 +9,8 @@ From MW Require Import Model.Base Model.F64 Model.Num Model.Datum Model.Transfor
   Model.VmTypes Model.Heap Model.Gc Model.VmBase Model.Compile Model.Vm
   Proofs.VmProofs0 Proofs.GcProofs Proofs.SymtabProofs Proofs.QuoteHeapProofs
   Proofs.CompileProofs Proofs.RunProofs Proofs.CompileCorrect Proofs.TailProofs Proofs.FrameSteps
-  Proofs.CellFuelProofs Proofs.CompileCorrect2 Proofs.FrameSteps3 Proofs.Closures3 Proofs.CompileCorrect3 Proofs.CompileStatic3.
+  Proofs.CellFuelProofs Proofs.CompileCorrect2 Proofs.FrameSteps3 Proofs.Closures3 Proofs.CompileCorrect3 Proofs.CompileStatic3
+  Proofs.FragmentCorollaries.
 From MW Require Proofs.ScopeProofs.
 Open Scope N_scope.
 
@@ -1037,4 +1038,28 @@ Proof.
         -- apply (R3_local bsem_not _ _ _ _ 0); reflexivity.
         -- reflexivity.
         -- apply R3_quote.
+Qed.
+
+(* ============================================================ C06: no panic on the closure fragment *)
+(* the evaluation of a well-formed closure-fragment expression whose reference value is a datum or
+   a builtin never panics, whatever the fuel: it is NoFuel or Done *)
+Lemma fragment3_outcome ob bsem : (forall b, builtin_ok ob bsem b) -> (forall b, builtin_envs ob bsem b) ->
+  forall e rho b rho' s,
+  wf3 e [] -> ref_eval3 bsem [] [] rho e (R3Base b) rho' -> minv s -> genv_rel3 rho s ->
+  transform_expr TRANSFORM_FUEL s (cell_of3 e) = Ok (cell_of3 e) ->
+  forall fuel, eval ob fuel (cell_of3 e) s = RNoFuel \/
+               exists s', eval ob fuel (cell_of3 e) s = ROk (Done (rcell b)) s'.
+Proof.
+  intros Hb He e rho b rho' s Hwf HR MI G Htr fuel.
+  destruct (eval_fragment3 ob bsem Hb He e rho (R3Base b) rho' s Hwf HR MI G Htr) as (n & m & Hev & V & _).
+  cbn [vrep3] in V. destruct (eval_halt_cases ob _ s n m b Hev V fuel) as [H|H]; [left; exact H|right; eauto].
+Qed.
+Lemma fragment3_no_panic ob bsem : (forall b, builtin_ok ob bsem b) -> (forall b, builtin_envs ob bsem b) ->
+  forall e rho b rho' s,
+  wf3 e [] -> ref_eval3 bsem [] [] rho e (R3Base b) rho' -> minv s -> genv_rel3 rho s ->
+  transform_expr TRANSFORM_FUEL s (cell_of3 e) = Ok (cell_of3 e) ->
+  forall fuel k, eval ob fuel (cell_of3 e) s <> RPanic k.
+Proof.
+  intros Hb He e rho b rho' s Hwf HR MI G Htr fuel k E.
+  destruct (fragment3_outcome ob bsem Hb He e rho b rho' s Hwf HR MI G Htr fuel) as [H|[s' H]]; rewrite H in E; discriminate.
 Qed.
